@@ -11,8 +11,8 @@
 #include <sys/resource.h>
 #include <sys/wait.h>
 
-struct Faults { int open_fail = -1; int w1 = -1, w2 = -1; int persistent = -1; int lock_fail = -1; int err = 0; /* 0 EIO, 1 ENOSPC, 2 EINTR, 3 EAGAIN */ };
-static const int ERRNOS[4] = { EIO, ENOSPC, EINTR, EAGAIN };
+struct Faults { int open_fail = -1; int w1 = -1, w2 = -1; int persistent = -1; int lock_fail = -1; int err = 0; /* 0 EIO, 1 ENOSPC, 2 EINTR, 3 EAGAIN, 4 stall: pwrite returns 0 */ };
+static const int ERRNOS[5] = { EIO, ENOSPC, EINTR, EAGAIN, 0 };
 static std::string faults_str(const Faults& f)
 {
     char b[160]; snprintf(b, sizeof b, "open_fail=%d,w1=%d,w2=%d,persistent=%d,lock_fail=%d,err=%d", f.open_fail, f.w1, f.w2, f.persistent, f.lock_fail, f.err); return b;
@@ -30,7 +30,7 @@ static void child_run(int kind, const std::string& ops, const Faults& f, Outcome
     ENV = Env();
     ENV.open_fail_at = f.open_fail;
     ENV.lock_fail_at = f.lock_fail;
-    ENV.fail_errno = ERRNOS[f.err & 3];
+    ENV.fail_errno = ERRNOS[f.err % 5]; ENV.stall = (f.err == 4);
     ENV.persistent_from = f.persistent;
     int maxw = f.w2 > f.w1 ? f.w2 : f.w1;
     if (maxw >= 0) { ENV.write_plan.assign(maxw + 1, W_FULL); if (f.w1 >= 0) ENV.write_plan[f.w1] = W_EIO; if (f.w2 >= 0) ENV.write_plan[f.w2] = W_EIO; }
@@ -67,7 +67,8 @@ static void child_run(int kind, const std::string& ops, const Faults& f, Outcome
                 bool was_running = storage_get_state(dev) == DeviceState_Running;
                 DEV(storage_append(dev, (const struct VideoFrame*)buf.data(), (const struct VideoFrame*)((uint8_t*)buf.data() + fa.size() + fb.size())));
                 // (an interrupted or would-block write may legitimately be retried: only hard errors must end the run)
-                if (was_running && ENV.failed_writes > failed_before && f.err < 2 && storage_get_state(dev) == DeviceState_Running)
+                // (a single stall may be ridden out too; a disk that stalls for good - every write from k on returns 0 - is a write failure)
+                if (was_running && ENV.failed_writes > failed_before && (f.err < 2 || (f.err == 4 && f.persistent >= 0)) && storage_get_state(dev) == DeviceState_Running)
                     fail("write-failure-not-reported", "%s: %d OS write(s) failed during this append, yet the device is still Running when the append returns (the runtime keeps streaming into it)", KIND_NAME(kind), ENV.failed_writes - failed_before);
                 break;
             }
@@ -179,7 +180,7 @@ int main(int argc, char** argv)
         // other errno values the OS may answer with (a full disk, an interrupted or would-block write): transient at k, persistent from k
         if (ops.size() <= 3 || ops == "srap" || ops == "sraa")
             for (int k = 0; k < W && g_hangs < 3; ++k)
-                for (int e = 1; e < 4; ++e) {
+                for (int e = 1; e < 5; ++e) {
                     Faults f; f.w1 = k; f.err = e; Outcome o1 = run_forked(kind, ops, f); note(ops, f, o1); ++with_faults; if (!strcmp(o1.clause, "hang")) ++g_hangs;
                     Faults g; g.persistent = k; g.err = e; Outcome o2 = run_forked(kind, ops, g); note(ops, g, o2); ++with_faults; if (!strcmp(o2.clause, "hang")) ++g_hangs;
                 }
